@@ -142,13 +142,14 @@ def run(ctx):
                     if "error" not in o:
                         ctx.violation(f"sensortran:{fault}-loaded", "a file set in which a measurement has no companion temperature file was loaded", rec)
             # ---- Sensornet
-            for naming in ("oryx", "halo"):
+            for naming in ("oryx", "halo", "halo-v1", "oryx-single"):
                 d = os.path.join(tmp, f"sensornet_{naming}{c}")
                 n2 = min(n, 6)
                 info = {}
                 drop = int(rng.choice([0, 0, 30, 120]))
                 gen_files.sensornet_files(d, n2, naming, drop_tail=drop, info=info)
-                flip = naming == "halo"  # the reader flips the backward channel for Halo / Sentinel files
+                flip = naming.startswith("halo")  # the reader flips the backward channel for Halo / Sentinel files
+                single = naming == "oryx-single"
                 xr_ = np.array(info["x"])
                 for listing, flen in (("sorted", None), ("reversed", None), ("sorted", float(np.round(xr_[-1] - rng.choice([10.0, 30.0, 49.0, 80.0]), 1)))):
                     rec = {"reader": "sensornet", "naming": naming, "n": n2, "listing": listing, "flip_reverse_measurements": flip, "drop_tail": drop, "fiber_length": flen}
@@ -157,7 +158,8 @@ def run(ctx):
                     if "error" in o:
                         ctx.violation(f"sensornet:raised:{naming}", o["error"], rec)
                         continue
-                    st, rst = np.array(o["st"]), np.array(o["rst"])
+                    st = np.array(o["st"])
+                    rst = np.array(o["rst"]) if not single else st
                     files = [file_of(v) for v in st[0]]
                     if files != list(range(n2)):
                         ctx.violation(f"sensornet:time-axis-not-chronological:{naming}:{listing}", f"time axis holds the files in the order {files}", rec)
@@ -176,6 +178,8 @@ def run(ctx):
                     # the file format fixes WHICH raw row of the reverse channel belongs to a forward row: with L = fiber_length (default: 50 m before the
                     # end of the recording), i0 = row of x=0, i1 = row of x=L: flipped files pair row r with row i0+i1-r (the sample recorded at L-x);
                     # aligned files pair row r with row r + (row of the header's 'fibre end' - i1)
+                    if single:
+                        continue
                     L = flen if flen is not None else max(0.0, xr_[-1] - 50.0)
                     i0, i1 = int(np.abs(xr_).argmin()), int(np.abs(xr_ - L).argmin())
                     want = (i0 + i1) if flip else (int(np.abs(xr_ - info["fibre_end"]).argmin()) - i1)
